@@ -483,6 +483,13 @@ func report(cr *checkResult, id, tier string, seed int, outDir string, writeBase
 	for _, b := range cr.bounded {
 		if b.failed {
 			violations = append(violations, fmt.Sprintf("VIOLATION property=%s replay=%s", id, b.replay))
+		} else if b.known {
+			// the stand-in recognised the specific listed failure (and nothing else failed): known finding `bounded:<name>`
+			if kf, ok := known["bounded:"+b.spec.Name]; ok {
+				knownHit = append(knownHit, fmt.Sprintf("KNOWN-FINDING: property=%s %s (bounded stand-in %s)", id, kf.what, b.spec.Name))
+			} else {
+				violations = append(violations, fmt.Sprintf("VIOLATION property=%s replay=%s", id, filepath.Join(outDir, "bounded_"+sanitizeFile(b.spec.Name)+".log")))
+			}
 		}
 		if b.err != "" {
 			cr.errors = append(cr.errors, "bounded "+b.spec.Name+": "+b.err)
